@@ -31,6 +31,10 @@ def check(repo: Repo, rep, tier):
     key_routing(repo, rep)
     apply_exh(repo, rep)
     apply_routing(repo, rep)
+    from .C03 import char_units, range_prov
+
+    range_prov(repo, rep)
+    char_units(repo, rep)
     ctx_restore(repo, rep)
 
 
